@@ -1,7 +1,7 @@
 """C05 — merge materialises the overlay view and continues the patch chain (P-tier: refusal, source frame, merged user block)."""
 import z3
 
-from . import h5copy, hashing, manifest, record
+from . import h5copy, hashing, manifest, ovlgroup, ovlread, record
 from .record import ublock_reject
 
 
@@ -24,6 +24,7 @@ def build(reg):
     record.add_lifecycle(reg)
     specs = record.add_merge(reg) + record.add_codec(reg)
     specs += [x for x in manifest.add_manifest(reg) if x.qual in ("IH5MFRecord._fixes_after_merge", "IH5MFRecord.merge_files")]  # the manifest side of a merge
+    specs += [x for x in ovlgroup.add_ovlgroup(reg) if x.qual == "IH5Group.visititems"] + [ovlread.RelPath()]  # the walk and the relative names the copy is driven by
     specs += h5copy.add_h5copy(reg)  # the copy merge_files materialises the view with
     from . import oneliners
 
@@ -31,6 +32,6 @@ def build(reg):
     return {
         "verify": specs,
         "lemmas": [("chain-continuation", lemma_chain_continuation)],
-        "trusted": oneliners.T_ONE + hashing.TRUSTED + [record.T1_OVL, record.T5_COPY, record.T3_HEX, "constructor type(self)(target,'x'): creates only new files, commits and closes on __exit__ (IH5Record.__init__/_create/close contracts; mode 'x' proved for _new_container in C02)"] + h5copy.T_COPY,
+        "trusted": oneliners.T_ONE + hashing.TRUSTED + [record.T1_OVL, record.T5_COPY, record.T3_HEX, "constructor type(self)(target,'x'): creates only new files, commits and closes on __exit__ (IH5Record.__init__/_create/close contracts; mode 'x' proved for _new_container in C02)"] + h5copy.T_COPY + ovlgroup.T_VISIT + ovlread.T_WALK,
         "assumptions": [],
     }
